@@ -91,8 +91,10 @@ def main():
     text = "\n".join(lines) + "\n"
     os.makedirs(os.path.dirname(OUT), exist_ok=True)
     if not os.path.exists(OUT) or open(OUT).read() != text:
-        with open(OUT, "w") as f:
+        tmp = OUT + ".tmp.%d" % os.getpid()
+        with open(tmp, "w") as f:
             f.write(text)
+        os.replace(tmp, OUT)      # atomic: a concurrent coqc never sees a truncated file
     if missing:
         print("gen_consts: could not extract: " + ", ".join(missing))
         return 1
